@@ -87,6 +87,10 @@ class Ctx:
     def nontriv(self, key):
         self.nontrivial.add(key)
 
+    def conforming(self):
+        """nothing has disagreed so far: self-tests of the machinery (falsified traces must be rejected) make sense only then"""
+        return not self.violations and self.drift_count == 0
+
     # ---- verdicts
     def drift_at(self, case, expected, observed, what=""):
         self.drift_count += 1
@@ -199,6 +203,11 @@ def main(pid, run):
     except MachineryError as e:
         print("MACHINERY-FAILURE property=%s: %s" % (pid, e))
         rc = 2
+        if ctx.violations and target is None:
+            # property-level violations were already established on the implementation before the machinery gave up (a tree that
+            # misbehaves can also confuse a later stage of the check): they stand
+            print("(the %d violation(s) recorded before the machinery failure are reported)" % len(ctx.violations))
+            rc = ctx.finish()
     except Exception as e:
         from .servers import Livelock
         if isinstance(e, Livelock):
